@@ -38,11 +38,15 @@ ASSUMPTIONS = [
 
 
 def run(ctx: Context, col) -> None:
-    _demoor(ctx, col)
-    _mirjalili(ctx, col)
-    _forest(ctx, col)
-    _initial(ctx, col)
-    _hendrix(ctx, col)
+    from .common import Parts
+
+    part = Parts()
+    part(_demoor, ctx, col)
+    part(_mirjalili, ctx, col)
+    part(_forest, ctx, col)
+    part(_initial, ctx, col)
+    part(_hendrix, ctx, col)
+    part.finish()
     for r_, n in (("R16.1", 2), ("R16.2", 2), ("R16.3", 3), ("R16.4", 1), ("R16.5", 4), ("R16.6", 3)):
         col.floor(r_, n)
 
